@@ -37,7 +37,8 @@ func c03Seq(tokens []string, conc int, extra string, b Bounds) *Scenario {
 			body := func() {
 				lib, peer, pipe := NewPipe(PipeOpts{Name: "srv", CloseUnblocksRecv: true})
 				h.pipe, h.peer = pipe, peer
-				srv := jrpc2.NewServer(anyAssigner{h.handler()}, &jrpc2.ServerOptions{Concurrency: conc, AllowPush: extra == xNotify})
+				// the assigner lists its methods: the one place inside the built-in rpc.serverInfo that can be observed
+				srv := jrpc2.NewServer(namerAssigner{anyAssigner{h.handler()}}, &jrpc2.ServerOptions{Concurrency: conc, AllowPush: extra == xNotify})
 				srv.Start(lib)
 				vs.GoNamed("peer", func() {
 					for i, m := range h.msgs {
@@ -107,6 +108,32 @@ func c03Seq(tokens []string, conc int, extra string, b Bounds) *Scenario {
 								if !exited || exn > en {
 									v = append(v, Viol{"C03.R1", fmt.Sprintf("handler of %s (message %d) entered before notification %s (message %d) had returned", r.Method, j, n.Method, i)})
 								}
+							}
+						}
+					}
+				}
+				// the built-in's own work (reading the method list for its report) is its handler: it must not
+				// happen while a notification of an earlier message is still running
+				firstI := -1
+				for j, mj := range h.msgs {
+					for _, r := range mj.Members {
+						if r.Kind == 'i' && firstI < 0 {
+							firstI = j
+						}
+					}
+				}
+				for at, e := range x.Log {
+					if e.K != "names" || firstI < 0 {
+						continue
+					}
+					for i := 0; i < firstI; i++ {
+						for _, n := range h.msgs[i].Members {
+							if n.Kind != 'n' && n.Kind != 'z' {
+								continue
+							}
+							Hit("C03.R1")
+							if exn, exited := exit[n.Method]; !exited || exn > at {
+								v = append(v, Viol{"C03.R1", fmt.Sprintf("the built-in rpc.serverInfo (message %d) read the method list for its report before notification %s (message %d) had returned", firstI, n.Method, i)})
 							}
 						}
 					}
